@@ -33,6 +33,7 @@ CONSTANTS W,            \* workers
           Removable,    \* tests with a reversible object
           Closure,      \* [FlatLeaves -> SUBSET Tests] what expanding a flat test adds
           Unrestricted, \* workers without own restrictions
+          Incompatible, \* workers whose restrictions exclude the selection: expanding a flat test adds nothing for them
           InitPools,    \* set of admissible initial pools [Locs -> SUBSET States]
           Statuses,     \* statuses the environment may report
           MaxTries, MaxConc, RerunSet, StopSet,
@@ -179,7 +180,7 @@ PickFromRoot(w, c) == /\ pc[w] = "loop" /\ Free(w) /\ ~asleep[w] /\ ~CleanupRead
 Expand(w) == /\ pc[w] = "loop" /\ Free(w) /\ ~asleep[w] /\ ~CleanupReady(Root, w) /\ CanExpand(w)
              /\ LET f == Last(path[w]) IN
                   /\ On(w, "expand") /\ Arg("x", f) /\ Adv
-                  /\ exists' = [t \in Tests |-> IF t \in Closure[f] THEN [exists[t] EXCEPT ![w] = TRUE] ELSE exists[t]]
+                  /\ exists' = [t \in Tests |-> IF t \in Closure[f] /\ w \notin Incompatible THEN [exists[t] EXCEPT ![w] = TRUE] ELSE exists[t]]
                   /\ unrolled' = [unrolled EXCEPT ![f][w] = TRUE]
              /\ turn' = w
              /\ UNCHANGED <<pc, path, dir, snap, pbs, pbc, ds, dc, started, finished, results, pool, rerunOff, asleep, nb, bad, preFailed>>
